@@ -17,7 +17,7 @@ CHECKS = {
    note="Bounded: leaves within 0..4 (quick) / 0..6 (thorough), two stacked operators plus fixed side operands, divisors 1..8 "
         "exhaustively; larger divisors (<=64) and counts (<=2**63) are sampled and rest on the lemmas' definitional step. "
         "Trusted: TLC's evaluation of TLA+ set operators, Python integers.",
-   technique="TLA+ spec + TLC exhaustive enumeration; spec states replayed into the real API; call records validated by TLC",
+   technique="TLA+ spec + TLC exhaustive enumeration; spec states replayed into the real API; call records validated by TLC; arithmetic lemmas for all integers by Apalache",
    design="4 C01"),
  "C03": dict(
    text="TLC checks on Statements.tla that the lazily committing statement-stream machine (one operator per parser/builder "
@@ -237,7 +237,7 @@ CHECKS = {
         "Wall time and memory are not decided (reported only); the decided statement is its operation-count form. The budget "
         "(4*10^7 instructions, ~7x the unchanged tree) and a 180 s terminator for work stuck in C-level iteration are the only "
         "thresholds.",
-   technique="TLA+ cost lemmas checked by TLC; recorded solver events validated by TLC; deterministic instruction counts compared",
+   technique="TLA+ cost lemmas checked by TLC (and, for all integers, by Apalache); recorded solver events validated by TLC; deterministic instruction counts compared",
    design="4 C16"),
 }
 
